@@ -40,8 +40,22 @@ def run(ctx):
     last = {}
     n = 0
     noexec = 0
+    pending = {}  # pid -> the arguments of an mprotect strace printed as "<unfinished ...>" (another thread's line came in between)
+    split = 0
     for line in open(slog, errors='replace'):
         m = re.search(r'mprotect\(0x([0-9a-f]+), (\d+), ([A-Z_|]+)\)\s+= 0', line)
+        if not m:
+            u = re.match(r'(\d+)\s+mprotect\(0x([0-9a-f]+), (\d+), ([A-Z_|]+) <unfinished', line)
+            if u:
+                pending[u.group(1)] = u
+                continue
+            r = re.match(r'(\d+)\s+<\.\.\. mprotect resumed>\s*\)\s+= 0', line)
+            if r and r.group(1) in pending:
+                u = pending.pop(r.group(1))
+                m = re.match(r'\d+\s+mprotect\(0x([0-9a-f]+), (\d+), ([A-Z_|]+)', u.group(0))
+                split += 1
+            elif re.match(r'(\d+)\s+<\.\.\. mprotect resumed>', line):
+                pending.pop(line.split()[0], None)  # resumed with an error: the call changed nothing
         if not m:
             continue
         a, l, prot = int(m.group(1), 16), int(m.group(2)), m.group(3)
@@ -60,6 +74,7 @@ def run(ctx):
         ctx.violations.append({'key': 'C14/page-left-writable', 'what': 'last mprotect on page %#x is %s' % (pg, p), 'case': None})
     ctx.stats['strace_mprotect_events_on_watched_pages'] = n
     ctx.stats['strace_pages_touched'] = len(last)
+    ctx.stats['strace_mprotect_calls_printed_in_two_parts'] = split
     ctx.evaluations += n
     if n == 0:
         ctx.inconclusive.append('strace saw no mprotect event on watched pages')
